@@ -240,7 +240,55 @@ pub fn strategy() -> impl Strategy<Value = Case> {
     (base, sfx, wr).prop_map(|(base, suffix, (lead, trail))| Case { lead, base, suffix, trail })
 }
 
+/// A learned choice must not widen the list: for bases whose list mixes kinds (emoji of a name, the plain transliteration,
+/// the raw English text, dictionary words, the auto-correct entry) EVERY candidate index is learned in turn, then the
+/// base is typed with suffixes in the same context and in a restarted one; every candidate must still be justified and
+/// every direct candidate of the base still be offered in joined form.
+fn learned_choice_then_suffix(run: &Run) {
+    let p = crate::gen::pools();
+    let mut bases: Vec<String> = ["smile", "cool", "sesh", "ami", "help", "boi", "kotha", "park", "ok", "atm", "a"].iter().map(|s| s.to_string()).collect();
+    bases.extend(p.emoji_names.iter().filter(|n| n.len() >= 3 && n.chars().all(|c| c.is_ascii_lowercase())).step_by(run.tier.pick(41, 7)).cloned());
+    let suffixes = ["r", "e", "er", "ke", "te", "gulo", "ta", "i"];
+    run.exhaustive(
+        "every-candidate-of-the-base-learned-then-base-plus-suffix",
+        &bases,
+        |_| (),
+        |base, st, _| {
+            for english in [false, true] {
+                let sb = Sandbox::new();
+                let mut opts = Opts::parse("sq");
+                opts.english = english;
+                let user: HashMap<String, String> = HashMap::new();
+                let mk = || Ctx::new(opts, &sb).map_err(|p| Failure::new(panic_kind(&p), p.to_string(), json!({"learned_then_suffix": base})));
+                let mut ctx = mk()?;
+                let n = match ctx.type_frontend(base).map_err(|p| Failure::new(panic_kind(&p), p.to_string(), json!({"learned_then_suffix": base})))? {
+                    Some(r) if !r.lonely => r.cands.len(),
+                    _ => continue,
+                };
+                ctx.finish().map_err(|p| Failure::new(panic_kind(&p), p.to_string(), json!({})))?;
+                for idx in 0..n {
+                    let case = || json!({"learned_then_suffix": {"base": base, "index": idx, "english": english}});
+                    let pf = |p: crate::driver::PanicInfo| Failure::new(panic_kind(&p), p.to_string(), case());
+                    ctx.type_frontend(base).map_err(pf)?;
+                    ctx.commit(idx).map_err(pf)?;
+                    for (si, sfx) in suffixes.iter().enumerate() {
+                        if si % 2 == 1 {
+                            ctx = mk()?; // a restarted context reads the choice from the file
+                        }
+                        let c = Case { lead: String::new(), base: base.clone(), suffix: sfx.to_string(), trail: String::new() };
+                        check_with(&ctx, &user, &c, st, &case)?;
+                    }
+                    st.count("learned-index-then-suffix-checks", suffixes.len() as u64);
+                }
+            }
+            st.label("learned-choice-then-suffix");
+            Ok(())
+        },
+    );
+}
+
 pub fn run(run: &Run) {
+    learned_choice_then_suffix(run);
     user_list_edited(run);
     autocorrect_key_pairs(run);
     run.require_label("user-list-edited", 300);
@@ -301,6 +349,24 @@ pub fn run(run: &Run) {
 }
 
 pub fn replay(_run: &Run, case: &Value) -> Result<(), Failure> {
+    if let Some(l) = case.get("learned_then_suffix").filter(|l| l.is_object()) {
+        let (base, idx, english) = (l["base"].as_str().unwrap_or_default().to_string(), l["index"].as_u64().unwrap_or(0) as usize, l["english"].as_bool().unwrap_or(false));
+        let sb = Sandbox::new();
+        let mut opts = Opts::parse("sq");
+        opts.english = english;
+        let pf = |p: crate::driver::PanicInfo| Failure::new(panic_kind(&p), p.to_string(), case.clone());
+        let mut ctx = Ctx::new(opts, &sb).map_err(pf)?;
+        ctx.type_frontend(&base).map_err(pf)?;
+        ctx.commit(idx).map_err(pf)?;
+        for (si, sfx) in ["r", "e", "er", "ke", "te", "gulo", "ta", "i"].iter().enumerate() {
+            if si % 2 == 1 {
+                ctx = Ctx::new(opts, &sb).map_err(pf)?;
+            }
+            let c = Case { lead: String::new(), base: base.clone(), suffix: sfx.to_string(), trail: String::new() };
+            check_with(&ctx, &HashMap::new(), &c, &mut Stats::new(), &|| case.clone())?;
+        }
+        return Ok(());
+    }
     if let Some(u) = case.get("user_list_edited") {
         let g = |k: &str| u[k].as_str().unwrap_or_default().to_string();
         return user_list_case(&g("key"), &g("value_before"), &g("value_after"), u["edit"].as_u64().unwrap_or(0) as usize, &g("suffix"), &mut Stats::new());
